@@ -64,6 +64,9 @@ func c13values() []c13value {
 		mk("tstr-leading-space", " a/b", refcbor.NTstr(" a/b")),
 		mk("tstr-trailing-space", "a/b ", refcbor.NTstr("a/b ")),
 		mk("tstr-empty", "", refcbor.NTstr("")),
+		mk("tstr-two-slashes", "a/b/c", refcbor.NTstr("a/b/c")),
+		mk("tstr-double-slash", "a//b", refcbor.NTstr("a//b")),
+		mk("tstr-three-slashes", "application/x/y/z", refcbor.NTstr("application/x/y/z")),
 		mk("tstr-with-parameter", "a/b;c=d", refcbor.NTstr("a/b;c=d")),
 		mk("tstr-with-parameter-trailing-space", "a/b; c=d ", refcbor.NTstr("a/b; c=d ")),
 		mk("tstr-with-parameter-leading-space", " a/b;c=d", refcbor.NTstr(" a/b;c=d")),
